@@ -160,6 +160,23 @@ def run(rep, tier, seed, model_ok=True, effort=1):
         cal_old, cal_new = old.rsplit(".", 1)[0], new.rsplit(".", 1)[0]
         if pv(cal_new) < pv(cal_old):
             rep.violation("bump moved calendar parts backwards", input=dict(pattern=pat2, old=old, new=new, date=str(d_new)), **{"class": "bump-backwards"})
+    # ---- (4b) boundary: the new date lies in week 0 (%W / %U) of the year of a version that is already ahead
+    for y in ((2019, 2021, 2022, 2026) if tier == "quick" else range(2002, 2098)):
+        for wk in ("WW", "0W", "UU", "0U"):
+            for yp in ("YYYY", "YY"):
+                pat2 = "%s.%s.BUILD" % (yp, wk)
+                d_old = dt.date(y, 1, 20) + dt.timedelta(days=r.randrange(0, 200))
+                for day in (1, 2, 3):
+                    d_new = dt.date(y, 1, day)
+                    wnew = int(d_new.strftime("%W" if wk.endswith("W") else "%U"))
+                    old = render(impl, pat2, d_old)
+                    new = impl.v2version.incr(old, pat2, maybe_date=d_new)
+                    rep.case(("bump-week0", pat2, str(d_old), str(d_new)), nontrivial=new is not None and wnew == 0)
+                    rep.count("bump-week0")
+                    if new is None:
+                        continue
+                    if pv(new.rsplit(".", 1)[0]) < pv(old.rsplit(".", 1)[0]):
+                        rep.violation("bump moved calendar parts backwards", input=dict(pattern=pat2, old=old, new=new, date=str(d_new)), **{"class": "bump-backwards"})
     if model_ok:
         bad, errs = common.coq_eval("c14cal", HDR, "Z * N * Z", "fun '(a, n, ck) => Z.eqb (checksum a n) ck", items, shard=2)
         for i in bad:
